@@ -409,7 +409,32 @@ func (e *Engine) installIntrinsics() {
 		*cell = m.zero(tt)
 		s := (*cell).(structure)
 		s[0] = &chanV{cap: 1, timer: true}
+		// remember when the timer armed last by this goroutine expires on the model
+		// clock (vfTimerBy): arming instant = the latest clock reading
+		if m.now == nil {
+			in["time.Now"](m, nil, fn, nil)
+		}
+		tid := 0
+		if m.thr != nil && m.thr.cur != nil {
+			tid = m.thr.cur.id
+		}
+		m.side[fmt.Sprintf("timerexp:%d", tid)] = m.ctx.Add(m.now, args[0].(*Term))
 		return cell
+	}
+	// vfTimerBy(deadline): the timer this goroutine armed last (if any since the
+	// previous call) expires no later than deadline on the model clock
+	in[hp+"vfTimerBy"] = func(m *machine, _ *frame, _ *ssa.Function, args []value) value {
+		tid := 0
+		if m.thr != nil && m.thr.cur != nil {
+			tid = m.thr.cur.id
+		}
+		key := fmt.Sprintf("timerexp:%d", tid)
+		exp, ok := m.side[key]
+		if !ok {
+			return m.ctx.True
+		}
+		delete(m.side, key)
+		return m.ctx.SLe(exp.(*Term), m.timeInstant(args[0]))
 	}
 	in["(*time.Timer).Stop"] = func(m *machine, _ *frame, _ *ssa.Function, args []value) value {
 		p := args[0].(*value)
